@@ -3,9 +3,12 @@ import Nstd.Buffer.Model
 /-
   Line protocol of the Buffer area.  One op per line; after every op the driver prints
   the observation line for the whole state:
-     `<v0> | <v1> | ... # <reg0> <reg1> ...`    with  `<v> = size bytes owned term`
+     `<v0> | <v1> | ... # <reg0> <reg1> ... @ <cap0> <cap1> ...`    with  `<v> = size bytes owned term`
   bytes in hex with `??` for unspecified bytes; `term` = `00`, some other byte, `??`, or `-`
   when the buffer does not own storage.  A fault prints `FAULT` and the state is reset.
+  An op line may end in `cap=<n>`: the capacity the implementation reported after that operation; the
+  model then gives a block allocated by the operation the capacity `max needed n` (capacity policy is
+  an environment parameter of the model); without it the model uses the exact capacity Buffer.hpp uses today.
   `eq v w` prints the result of the comparison, `state v` the white-box view
   `state <size> <capacity> <head-room|-> <own|att|dflt|stale>` of one variable (ties the
   branch-selecting state of the model to the implementation), `heap` the number of live
@@ -30,7 +33,8 @@ def obsVar (st : State) (v : Nat) : String :=
 
 def obs (st : State) : String :=
   " | ".intercalate ((List.range st.bufs.length).map (obsVar st)) ++ " # " ++
-    " ".intercalate (st.regs.map bytesStr)
+    " ".intercalate (st.regs.map bytesStr) ++ " @ " ++
+    " ".intercalate (st.bufs.map (fun b => toString b.cap))
 
 def regionInit : List (List Byte) :=
   [ (List.range 8).map (fun i => some (0x10 + i)), (List.range 5).map (fun i => some (0x20 + i)) ]
@@ -84,10 +88,14 @@ def stepLine (st : State) (ws : List String) : State × String :=
         | none => "bad-op")
     | none => (st, "bad-op")
   | _ =>
+    -- an optional last token `cap=<n>`: the capacity the implementation reports after this operation
+    let (ws, k) := match ws.getLast? with
+      | some t => if t.startsWith "cap=" then (ws.dropLast, ((t.drop 4).toNat?).getD 0) else (ws, 0)
+      | none => (ws, 0)
     match parseOp ws with
     | none => (st, "bad-op")
     | some op =>
-      match step st op with
+      match step st k op with
       | some st' => (st', obs st')
       | none => (init0, "FAULT")
 
